@@ -325,10 +325,34 @@ pub proof fn lemma_eval_direct(e0: Seq<Word>, e2: Seq<Word>, n: int, r: int, x: 
     assert((e0[n] as int + r) * pw(n) == (e0[n] as int) * pw(n) + r * pw(n)) by (nonlinear_arith);
 }
 
-pub proof fn lemma_val_nonneg_all()
-    ensures forall|s: Seq<Word>| 0 <= #[trigger] valn(s, s.len() as int),
+/// 0 <= val(m) < B^n for every sequence of length n (n fixed: the quantifier only fires on sequences of that length;
+/// used for results that only exist after the next call)
+pub proof fn lemma_val_bound_len(n: int)
+    ensures forall|m: Seq<Word>| m.len() == n ==> 0 <= #[trigger] valn(m, n) < pw(n),
 {
-    assert forall|s: Seq<Word>| 0 <= #[trigger] valn(s, s.len() as int) by { lemma_val_bound(s); }
+    assert forall|m: Seq<Word>| m.len() == n implies 0 <= #[trigger] valn(m, n) < pw(n) by { lemma_val_bound(m); }
+}
+
+/// storing into a word at or above n does not change the low n words (stated once for all sequences: it lets the
+/// prover identify `e[..n]` after `e[n] = kernel(&mut e[..n], ..)` with the slice the kernel returned)
+pub proof fn lemma_update_keeps_low()
+    ensures forall|s: Seq<Word>, i: int, v: Word, n: int| 0 <= n <= i < s.len()
+        ==> #[trigger] s.update(i, v).subrange(0, n) == s.subrange(0, n),
+{
+    assert forall|s: Seq<Word>, i: int, v: Word, n: int| 0 <= n <= i < s.len()
+        implies #[trigger] s.update(i, v).subrange(0, n) == s.subrange(0, n) by {
+        assert(s.update(i, v).subrange(0, n) =~= s.subrange(0, n));
+    }
+}
+
+/// a non-negative multiple of p below p is zero (stated for all r: used for carries that only exist after the next call)
+pub proof fn lemma_small_multiple_zero(p: int)
+    requires p >= 1,
+    ensures forall|r: int| 0 <= r && #[trigger] (r * p) < p ==> r == 0,
+{
+    assert forall|r: int| 0 <= r && #[trigger] (r * p) < p implies r == 0 by {
+        assert(r < 1) by (nonlinear_arith) requires r * p < p, p >= 1, r >= 0;
+    }
 }
 
 /// `t -= y` cannot borrow when the exact difference is non-negative
@@ -343,22 +367,27 @@ pub proof fn lemma_no_borrow(v1: int, d: int, b: bool, p: int)
     }
 }
 
-/// `t += y` (word carry r >= 0) cannot carry when the exact sum fits
-pub proof fn lemma_no_carry(v1: int, y: int, r: int, p: int)
-    requires 0 <= v1 < p, 0 <= y < p, v1 + r * p == y,
-    ensures r == 0, v1 == y,
+/// `t -= y` with a word borrow r >= 0 cannot borrow when the exact difference is non-negative
+pub proof fn lemma_no_borrow_word(v1: int, d: int, r: int, p: int)
+    requires 0 <= v1 < p, 0 <= d, 0 <= r, v1 - r * p == d,
+    ensures r == 0, v1 == d,
 {
-    lemma_zero_acc_no_carry(v1, y, r, p);
+    assert(r < 1) by (nonlinear_arith) requires r * p < p, p >= 1, r >= 0;
 }
 
-/// storing into a word at or above n does not change the low n words (stated once for all sequences: it lets the
-/// prover identify `e[..n]` after `e[n] = kernel(&mut e[..n], ..)` with the slice the kernel returned)
-pub proof fn lemma_update_keeps_low()
-    ensures forall|s: Seq<Word>, i: int, v: Word, n: int| 0 <= n <= i < s.len()
-        ==> #[trigger] s.update(i, v).subrange(0, n) == s.subrange(0, n),
+pub proof fn lemma_val_nonneg_all()
+    ensures forall|s: Seq<Word>| 0 <= #[trigger] valn(s, s.len() as int),
 {
-    assert forall|s: Seq<Word>, i: int, v: Word, n: int| 0 <= n <= i < s.len()
-        implies #[trigger] s.update(i, v).subrange(0, n) == s.subrange(0, n) by {
-        assert(s.update(i, v).subrange(0, n) =~= s.subrange(0, n));
-    }
+    assert forall|s: Seq<Word>| 0 <= #[trigger] valn(s, s.len() as int) by { lemma_val_bound(s); }
+}
+
+/// carry bound of `e[..n] += x` seen on sequences (e0 -> mid): 0 <= x < kk·B^n  ==>  carry <= kk
+pub proof fn lemma_eval_carry_bound(e0: Seq<Word>, mid: Seq<Word>, n: int, r: int, x: int, kk: int)
+    requires 0 <= n <= e0.len(), mid.len() == e0.len(), 0 <= r, 0 <= kk, x < kk * pw(n),
+        val(mid.subrange(0, n)) + r * pw(n) == val(e0.subrange(0, n)) + x,
+    ensures r <= kk,
+{
+    lemma_val_bound(mid.subrange(0, n));
+    lemma_val_bound(e0.subrange(0, n));
+    lemma_carry_le(val(mid.subrange(0, n)), val(e0.subrange(0, n)), x, r, pw(n), kk);
 }
